@@ -548,7 +548,7 @@ pub fn run_main<C: Check>(c: C) -> ! {
     let counters: BTreeMap<&String, &u64> = st
         .counters
         .iter()
-        .filter(|(k, _)| !k.starts_with("violations_by_sig::"))
+        .filter(|(k, _)| !k.starts_with("violations_by_sig::") && !k.starts_with("shrink_cache::"))
         .collect();
     coverage.insert("observed".into(), json!(counters));
     coverage.insert(
